@@ -76,6 +76,14 @@ func TestC14Pad(t *testing.T) {
 		if len(dec) != 192 || !bytes.Equal(dec, dwp) {
 			t.Fatalf("DecodeRSAPad returned %d bytes, want data+padding of 192 bytes equal to the reference's", len(dec))
 		}
+		// the ciphertext is still the RSA_PAD construction afterwards: it still
+		// equals what the reference encoder produced, and it decrypts again
+		if !bytes.Equal(ct, again) {
+			t.Fatalf("DecodeRSAPad modified the ciphertext it was given")
+		}
+		if dec2, err := crypto.DecodeRSAPad(ct, k.Key); err != nil || !bytes.Equal(dec2, dwp) {
+			t.Fatalf("the same ciphertext does not decrypt a second time: %v", err)
+		}
 		// (4) cross-implementation: the implementation decodes the reference
 		// encoder's output (fresh padding, several temp keys: the first ones are
 		// chosen to overflow the modulus when possible).
